@@ -46,12 +46,15 @@ impl KmsProvider for Provider {
             "wronglen" => return Ok(vec![7u8; 16]),
             _ => {}
         }
-        if self.auth {
-            for (h, d) in self.table.borrow().iter() { if h == wrapped { return Ok(d.clone()); } }
-            Err(KmsError::InvalidKey("unknown handle".into()))
-        } else {
-            if wrapped.len() != 32 { return Err(KmsError::InvalidKey("bad length".into())); }
-            Ok(wrapped.iter().zip(self.mask()).map(|(a, b)| a ^ b).collect())
+        let right: Result<Vec<u8>, KmsError> = if self.auth {
+            match self.table.borrow().iter().find(|(h, _)| h == wrapped) { Some((_, d)) => Ok(d.clone()), None => Err(KmsError::InvalidKey("unknown handle".into())) }
+        } else if wrapped.len() != 32 { Err(KmsError::InvalidKey("bad length".into())) }
+        else { Ok(wrapped.iter().zip(self.mask()).map(|(a, b)| a ^ b).collect()) };
+        // a key of the wrong length that agrees with the right key as far as it goes
+        match (self.fault.borrow().as_str(), right) {
+            ("longkey", Ok(mut d)) => { let extra = 1 + (d[0] as usize % 32); d.extend(std::iter::repeat(0xa5u8).take(extra)); Ok(d) }
+            ("shortkey", Ok(d)) => Ok(d[..16 + (d[1] as usize % 16)].to_vec()),
+            (_, r) => r,
         }
     }
 }
@@ -178,7 +181,7 @@ pub fn record(seed: u64, tier: &str, out_path: &str) {
         if k % 12 == 5 {
             let auth = rng.chance(1, 2);
             let w = if auth { *rng.pick(&[16usize, 32, 48, 200]) } else { 32 };
-            let seqs: [&[&str]; 5] = [&["none", "err", "none"], &["none", "wrongkey", "none"], &["wrongkey", "none"], &["none", "wronglen"], &["err", "none", "none"]];
+            let seqs: [&[&str]; 7] = [&["none", "err", "none"], &["none", "wrongkey", "none"], &["wrongkey", "none"], &["none", "wronglen"], &["err", "none", "none"], &["none", "longkey", "none"], &["shortkey", "none"]];
             let pick = seqs[(k / 12) % seqs.len()];
             let p = rng.range(32, 64) as usize;
             events += sequence_round(w, p, auth, pick, &mut rng, &mut out);
@@ -188,7 +191,7 @@ pub fn record(seed: u64, tier: &str, out_path: &str) {
         let w = if !auth { 32 } else { match rng.below(6) { 0 => 16, 1 => 1024, 2 => 32, 3 => 255 + rng.below(3) as usize, _ => rng.range(16, 1024) as usize } };
         let p = rng.range(32, 64) as usize;
         let total = 4 + w + 12 + p + 16;
-        let fault = if k % 25 == 0 { *rng.pick(&["enc_err", "err", "wrongkey", "wronglen"]) } else { "none" };
+        let fault = if k % 25 == 0 { *rng.pick(&["enc_err", "err", "wrongkey", "wronglen", "longkey", "shortkey"]) } else { "none" };
         let mut ops: Vec<Value> = vec![];
         if fault == "none" && k % 10 != 0 {
             let nops = if rng.chance(1, 5) { 2 } else { 1 };
